@@ -22,3 +22,9 @@ def check(A):
     # the close of a transport must reach the session: the tornado driver queues the close
     # marker without waiting, into an unbounded queue
     R.driver_queue_rule(A, 'C05')
+    # the reason tells the cause: five different documented texts; and in the asyncio flavour
+    # a close that is not awaited never happens
+    R.reason_constants_rule(A, 'C05')
+    for fl in S.FLAVOURS:
+        R.awaited_rule(A, fl, 'C05')
+    R.asgi_close_total_rule(A, 'C05')
